@@ -160,7 +160,7 @@ func concurrent(e *env, prop string, mode int) {
 	} else {
 		nprogs := 60
 		if thorough {
-			nprogs = 1500
+			nprogs = 600
 		}
 		for i := 0; i < nprogs; i++ {
 			p := cProgram{Locking: true, Multi: r.Bool()}
@@ -223,7 +223,7 @@ func concurrent(e *env, prop string, mode int) {
 	}
 	maxRuns := 40
 	if thorough {
-		maxRuns = 4000
+		maxRuns = 2000
 	}
 	totalRuns := 0
 	for _, p := range progs {
